@@ -19,6 +19,7 @@ int main(int argc, char** argv)
   uint64_t const scenarios = a.u("scenarios", 50);
   g_dir = a.s("dir", ".");
   g_seed = seed;
+  g_label = a.s("label", "");
   g_mode_s = (mode == "S");
   quill::verif::g_hook.store(hook);
   if (g_mode_s) g_virtual.store(true);
